@@ -81,7 +81,7 @@ def _matrix_cases(ctx, rng, count):
             case = OptCase(B, "ccqr", costs=np.zeros(B.shape[0]), meta={"mk": mk})
         else:
             case = OptCase(B, "gqr", gqr={}, meta={"mk": mk})
-        if which != "qr" and rng.random() < 0.25:
+        if which != "qr" and "*2^" not in mk and rng.random() < 0.25:        # (not on top of gen_matrix's own extreme units: squares must fit the type)
             # the same matrix stored in a narrower floating type and in other units (powers of two keep it exact): half-precision
             # snapshots of 8-bit intensities (entries ≥ 256: their squares leave the half-precision range), tiny amplitudes
             dt = rng.choice(["float16", "float16", "float32"])
